@@ -154,6 +154,18 @@ def items(tier):
                 for dflag, rev in itertools.product((False, True), repeat=2):
                     for ab in ((), (1,)):
                         out.append((sp, {"rule": "TSLACK", "due": dflag, "rev": rev, "absence": list(ab), "max_time": F.seq_bound(sp) + 12}))
+    # one task with an FS successor and an FF/SF/SS successor, declared in both orders; every task with a worker of its own, and pooled
+    for k in ("FF", "SF", "SS"):
+        for wv in ((2, 1, 1), (1, 2, 2)):
+            for links in ([[0, 1, "FS"], [0, 2, k]], [[0, 1, k], [0, 2, "FS"]], [[0, 2, "FS"], [1, 2, k]]):
+                fl = {"tasks": [{"name": F.tname(i), "work": float(w)} for i, w in enumerate(wv)], "links": links}
+                for lay in ("DED", "POOL2"):
+                    sp = F.with_teams(fl, lay)
+                    for rev in (True, False):
+                        out.append((sp, {"rule": "TSLACK", "due": False, "rev": rev, "absence": [], "max_time": F.seq_bound(sp) + 12}))
+    for sp in F.same_name_task_specs():
+        for rev in (True, False):
+            out.append((sp, {"rule": "TSLACK", "due": False, "rev": rev, "absence": [], "max_time": 20}))
     for sp in c08.base_models()[3:]:
         for dflag, rev in itertools.product((False, True), repeat=2):
             out.append((sp, {"rule": "TSLACK", "due": dflag, "rev": rev, "absence": [], "max_time": F.seq_bound(sp) + 12}))
@@ -191,7 +203,7 @@ def run(tier, seed):
     meta = {
         "level": "fault_enumeration",
         "rule": "for every FS (thorough: FS/SS/FF) workflow on 3 tasks x works {1,2} x {POOL1,POOL2} x due-time vectors x considering_due_time_of_tail_tasks x reverse_log_information x absence {[],[1]}, "
-        "and facility/conveyor/nested models: backward_simulate is run once normally and once for EVERY (step, phase) of its inner run with an abort raised from the step observer at that point - once an Exception subclass, once a BaseException that is not an Exception (like KeyboardInterrupt); "
+        "tasks with an FS successor next to an FF/SF/SS successor (both declaration orders), same-named tasks, and facility/conveyor/nested models: backward_simulate is run once normally and once for EVERY (step, phase) of its inner run with an abort raised from the step observer at that point - once an Exception subclass, once a BaseException that is not an Exception (like KeyboardInterrupt); "
         "afterwards the identity and order of every input/output task list, every workplace input/output list and the task list are compared with before, a forward simulate is compared with an untouched "
         "twin, and for successful runs the FS clause is checked on the logs in forward-time reading together with log alignment; non-trivial = distinct (model, options, fault point)",
         "bounds": {"models_x_options": len(its), "fault_points": "all (step, phase) of the inner run"},
